@@ -71,6 +71,27 @@ def generate(rng, tier):
     # infinities are ordinary ordered values
     for vals in ([-math.inf, 0.0, math.inf], [math.inf, math.inf], [-math.inf, -math.inf, 1.0], [0.0, -0.0, 1.0]):
         cases.append({"line": "F mono " + t_vec(vals, ff), "meta": {"v": vals}})
+    # words realised with saturating extremes: ties between equal infinities / equal huge values, steps that overflow when
+    # subtracted (a classification by the sign of the difference instead of by comparison goes wrong exactly here)
+    ext_pool = [-math.inf, -1.7976931348623157e308, -1e308, -1.0, -5e-324, 0.0, 5e-324, 1.0, 1e308, 1.7976931348623157e308, math.inf]
+    for n in range(2, 6):
+        for word in itertools.product("<=>", repeat=n - 1):
+            for _ in range(2 if tier == "quick" else 12):
+                i = rng.randrange(len(ext_pool))
+                vals = [ext_pool[i]]
+                ok = True
+                for w in word:
+                    if w == "<":
+                        if i == len(ext_pool) - 1:
+                            ok = False; break
+                        i = rng.randint(i + 1, len(ext_pool) - 1)
+                    elif w == ">":
+                        if i == 0:
+                            ok = False; break
+                        i = rng.randint(0, i - 1)
+                    vals.append(ext_pool[i])
+                if ok:
+                    cases.append({"line": "F mono " + t_vec(vals, ff, rng.choice(gen.LAYS_1D)), "meta": {"v": vals}})
     # random long vectors
     for _ in range(60 if tier == "quick" else 600):
         n = rng.randint(10, 400)
